@@ -1,7 +1,7 @@
 (* C03 — UDP tunnels preserve datagram payloads, boundaries and reply addressing.
    Only statements here; proofs live in Proofs/.  Every theorem is followed by Print Assumptions. *)
 From FRP Require Import Model.Base64 Model.Udp Model.UdpSched Proofs.Base64Proofs Proofs.UdpProofs Proofs.UdpFwdProofs
-  Proofs.UdpSchedProofs Proofs.RegistryCheck.
+  Proofs.UdpSchedProofs Model.UdpSrvPump Proofs.UdpSrvPumpProofs Proofs.RegistryCheck.
 Open Scope Z_scope.
 
 Definition today_registry := registry type_consts type_map.
@@ -142,6 +142,26 @@ Theorem C03_drop_only_when_full_or_replacing_partial : forall c h,
   forallb uout_drop_ok (snd (urun c uinit h)) = true.
 Proof. exact drops_only_allowed. Qed.
 Print Assumptions C03_drop_only_when_full_or_replacing_partial.
+
+(* "... only while the work connection is being re-established": the server side of the work connection
+   (server/proxy/udp.go: fetch loop, per-connection sender goroutines on the shared sendCh) as a schedule
+   model with the cancel() of the connection given up as an explicit step (Model/UdpSrvPump.v).  With the
+   cancel, for every schedule (any number of replacements, any sender chosen by the scheduler): a datagram
+   is lost to the sender of a dead connection only at moments when NO live work connection exists —
+   never once the next connection is up *)
+Theorem C03_no_loss_once_reestablished : forall h,
+  forallb (fun x => negb (plost_while_established x)) (prun true pinit h) = true.
+Proof. intros h. apply no_loss_once_established. exact pinv_init. Qed.
+Print Assumptions C03_no_loss_once_reestablished.
+
+(* ... and the cancel is what makes it true: if the sender of the connection given up is not stopped,
+   it stays parked on sendCh, takes a datagram that arrives long after the new connection is up and
+   loses it (the same schedule loses nothing with the cancel) *)
+Theorem C03_stale_sender_loses_after_reestablishment :
+  exists h, existsb plost_while_established (prun false pinit h) = true /\
+            existsb plost_while_established (prun true pinit h) = false.
+Proof. exists stale_sender_history. rewrite (proj1 stale_sender_witness), (proj2 stale_sender_witness). split; reflexivity. Qed.
+Print Assumptions C03_stale_sender_loses_after_reestablishment.
 
 (* at light load (nothing dropped, pipeline drained) exactly the datagrams sent have arrived,
    and exactly the replies read have reached their users *)
